@@ -95,6 +95,9 @@ def dur_seconds(ex, d):
     if not is_sym(d):
         sec, nsec = (abs(d) // 10**9) * (1 if d >= 0 else -1), (abs(d) % 10**9) * (1 if d >= 0 else -1)
         return FloatV(float(sec) + float(nsec) / 1e9)
+    if not ex.env.get('fp_precise'):
+        # metrics/timers: the value is irrelevant to every modelled effect
+        return FloatV(ex.fresh('fp', 'real'))
     # exact value d/1e9; float64(sec) exact below 2^53 s, float64(nsec)/1e9 one rounding, the sum one rounding
     exact = z3.ToReal(d) / z3.RealVal(10**9)
     u = z3.RealVal(U)
